@@ -191,6 +191,12 @@ fn class_cells_ring(n: u64) -> Vec<u64> {
     let x0 = if jp > 0 { n as i64 - jp + 1 } else { (y + n as i64 + 1).rem_euclid(2) };
     if let Some(first) = ring_index(n, x0, y) {
       let cells = if jp > 0 { 4 * jp as u64 } else { 4 * n };
+      for f in [3u64, 7, 11] {
+        let idx = first + (cells * f) / 13;
+        if idx < total {
+          v.push(idx);
+        }
+      }
       for k in 0..=4u64 {
         for d in [-1i64, 0, 1] {
           let idx = (first + k * cells / 4) as i64 + d;
